@@ -36,8 +36,8 @@ theorem upToDate_sameTree (ctx : Ctx κ) (s : Store κ) :
     | true =>
       rw [hc] at hu
       simp only [UpToDate, if_true] at hu
-      obtain ⟨es, cs, rfl, hm, hall, hun⟩ := hu
-      obtain ⟨cs', ts, hm', _, hts, rfl⟩ := stored_dir hc ht
+      obtain ⟨es, cs, rfl, _, hm, hall, hun⟩ := hu
+      obtain ⟨cs', ts, _, hm', hts, rfl⟩ := stored_dir hc ht
       rw [hm] at hm'; cases hm'
       have hs' : sortedList es = true := by simpa [Node.sorted] using hs
       simp only [deref, SameTree, Node.dir.injEq, exists_eq_left']
@@ -102,7 +102,8 @@ theorem sameTree_upToDate (ctx : Ctx κ) (s : Store κ) (hcons : Consistent ctx 
     cases hc : c.isDir with
     | false => rw [UpToDate_file]; exact sameTree_fileOK hcons hc hst ht
     | true =>
-      obtain ⟨cs, ts, hm, hread, hts, rfl⟩ := stored_dir hc ht
+      have hin := stored_dir_inCache hc ht
+      obtain ⟨cs, ts, _, hread, hts, rfl⟩ := stored_dir hc ht
       cases n with
       | file b => simp [deref, SameTree] at hst
       | other => simp [deref, SameTree] at hst
@@ -118,7 +119,7 @@ theorem sameTree_upToDate (ctx : Ctx κ) (s : Store κ) (hcons : Consistent ctx 
         simp only [deref, SameTree, Node.dir.injEq, exists_eq_left'] at hst
         obtain ⟨hsl, hrev⟩ := hst
         simp only [UpToDate, if_true]
-        refine ⟨es, cs, rfl, hm, ?_, ?_⟩
+        refine ⟨es, cs, rfl, hin, hread, ?_, ?_⟩
         · intro k hk
           obtain ⟨tk, htk, hmem⟩ := (storedChildren_mem cs ts hts).2 k hk
           have h1 := hrev (k.name, tk) hmem
